@@ -15,7 +15,7 @@ for d in /verif/seeded/*/; do
   VERIF_BUDGET_S=${BUDGET:-25} VERIF_JOBS=${JOBS:-6} $DSX/target/release/detsim check $chk quick > /tmp/dsx_run.log 2>&1
   rp=$(grep -m1 "^VIOLATION" /tmp/dsx_run.log | sed 's/.*replay=//')
   if [ -z "$rp" ] || [ ! -f "$rp" ]; then echo "$id NOT CAUGHT within budget: $(tail -1 /tmp/dsx_run.log | cut -c1-120)" >> $OUT; cd $WT && git reset -q --hard; continue; fi
-  cls=$(grep -m1 "class=" /tmp/dsx_run.log | sed 's/.*class=\([^ ]*\).*/\1/')
+  cls=$(grep -A1 -m1 "^VIOLATION" /tmp/dsx_run.log | grep "class=" | sed 's/.*class=\([^ ]*\).*/\1/')
   cp $rp $d/detsim-replay.json
   $DSX/target/release/detsim replay $d/detsim-replay.json > /tmp/dsx_rep1.log 2>&1; with=$?
   cd $WT && git reset -q --hard
